@@ -344,3 +344,28 @@ func (c *Ctx) delegates(fnName, callee string, args ...string) {
 	skip := P.PathExists(q.fn, nil, an.IsReturn, an.In(calls), nil)
 	q.add("PATH", "every path delegates to "+callee, !skip, pickS(!skip, "no return without the call", "the wrapper can return without delegating"), calls[0])
 }
+
+// returnsField: every normal return of the accessor yields the named field of its receiver.
+func (c *Ctx) returnsField(fnName, field, why string) {
+	q := c.F(fnName)
+	if !q.ok() {
+		return
+	}
+	rets := returnsOf(q.fn)
+	ok := len(rets) > 0
+	for _, r := range rets {
+		good := false
+		for _, v := range c.retVals(r, 0) {
+			if an.IsLoadOfField(v, field) {
+				good = true
+			} else {
+				good = false
+				break
+			}
+		}
+		if !good {
+			ok = false
+		}
+	}
+	q.add("PROV", "returns "+field, ok, pickS(ok, "every return yields the receiver's "+field, fnName+" does not return "+field+" on every path: "+why))
+}
